@@ -15,6 +15,7 @@ package llrp
 
 import (
 	"context"
+	"errors"
 	"encoding/hex"
 	"encoding/json"
 	"fmt"
@@ -492,6 +493,8 @@ type c10SweepRes struct {
 	PanicTx map[string]string   `json:"panic_text"`
 	// TableTexts: codes whose plain status text is one of the library's texts (not "unknown LLRP status code n")
 	TableTexts int `json:"table_texts"`
+	// Wedged: kind -> codes of sessions in which Connect did not return (the stage is given up after 4 of them)
+	Wedged map[string][]int `json:"wedged"`
 }
 
 func errorTextDirect(err error) (text string, panicked bool, pv string) {
@@ -554,6 +557,8 @@ func (res *c10SweepRes) note(kind string, code int, err error) {
 
 // sweepSession: one Client session in which the peer refuses at `stage` with `code`; returns
 // the error of the call that was refused.
+var errSweepWedged = errors.New("verif: Connect did not return")
+
 func sweepSession(stage string, code int) error {
 	cliConn, peer := net.Pipe()
 	defer peer.Close()
@@ -634,19 +639,27 @@ func sweepSession(stage string, code int) error {
 			return err
 		case <-ctx.Done():
 			_ = c.Close()
-			return nil
+			return errSweepWedged
 		}
 	case "sendfor", "sendfor-errmsg":
 		err := c.SendFor(ctx, &GetReaderCapabilities{}, &GetReaderCapabilitiesResponse{})
 		_ = c.Close()
 		peer.Close()
-		<-connErr
+		select {
+		case <-connErr:
+		case <-time.After(3 * time.Second):
+			return errSweepWedged
+		}
 		return err
 	default:
 		err := c.Shutdown(ctx)
 		_ = c.Close()
 		peer.Close()
-		<-connErr
+		select {
+		case <-connErr:
+		case <-time.After(3 * time.Second):
+			return errSweepWedged
+		}
 		return err
 	}
 }
@@ -660,7 +673,7 @@ func TestVerifC10StatusSweep(t *testing.T) {
 			fmt.Fprintf(w, "{\"error\":%q}\n", err.Error())
 			continue
 		}
-		res := c10SweepRes{Op: rq.Op, Panics: map[string][]int{}, Hidden: map[string][]int{}, NoError: map[string][]int{},
+		res := c10SweepRes{Op: rq.Op, Wedged: map[string][]int{}, Panics: map[string][]int{}, Hidden: map[string][]int{}, NoError: map[string][]int{},
 			Samples: map[string]string{}, PanicTx: map[string]string{}}
 		switch rq.Op {
 		case "decode":
@@ -693,9 +706,19 @@ func TestVerifC10StatusSweep(t *testing.T) {
 					defer wg.Done()
 					for j := range jobs {
 						stage, code := j[0].(string), j[1].(int)
+						mu.Lock()
+						giveUp := len(res.Wedged["session:"+stage]) >= 4
+						mu.Unlock()
+						if giveUp {
+							continue
+						}
 						err := sweepSession(stage, code)
 						mu.Lock()
-						res.note("session:"+stage, code, err)
+						if err == errSweepWedged {
+							res.Wedged["session:"+stage] = append(res.Wedged["session:"+stage], code)
+						} else {
+							res.note("session:"+stage, code, err)
+						}
 						mu.Unlock()
 					}
 				}()
